@@ -194,7 +194,8 @@ func requestFromPacket(ctx context.Context, pkt hasPath, baseDir string) *Reques
 	switch p := pkt.(type) {
 	case *sshFxpOpenPacket:
 		request.Flags = p.Pflags
-		request.Attrs = p.Attrs.([]byte)
+		// the request outlives the packet's buffer (which the allocator recycles), so keep a copy
+		request.Attrs = append([]byte(nil), p.Attrs.([]byte)...)
 	case *sshFxpSetstatPacket:
 		request.Flags = p.Flags
 		request.Attrs = p.Attrs.([]byte)
